@@ -42,6 +42,11 @@ def holds(post, asg):
         s = sum(c * lit_val((v, sg), asg) for c, v, sg in post[1])
         op, b = post[2], post[3]
         return s >= b if op == ">=" else s <= b if op == "<=" else s > b if op == ">" else s < b if op == "<" else s == b
+    if k == "pb-scaled":
+        # k * (base) op bound, built through whole-expression scaling
+        sv = post[2] * sum(c * lit_val((v, sg), asg) for c, v, sg in post[1])
+        op, b = post[3], post[4]
+        return sv >= b if op == ">=" else sv <= b if op == "<=" else sv > b if op == ">" else sv < b if op == "<" else sv == b
     if k == "pb-shared":
         # two inequalities over a shared sub-expression: (base + extra) op1 b1   and   base op2 b2
         base = sum(c * lit_val((v, sg), asg) for c, v, sg in post[1])
@@ -94,6 +99,14 @@ def post_to(sm, post):
                 sm.pseudoboolencoding(ineq, bool(post[4]))
             elif how == "both":
                 sm.pseudoboolencoding(ineq, not bool(post[4]))
+    elif k == "pb-scaled":
+        base = pb.Expr()
+        for c, v, sg in post[1]:
+            base = base + c * mk_lit(sm, (v, sg))
+        e = (post[2] * base) if post[6] else (base * post[2])  # int * Expr and Expr * int
+        op, b = post[3], post[4]
+        ineq = (e >= b) if op == ">=" else (e <= b) if op == "<=" else (e > b) if op == ">" else (e < b) if op == "<" else (e == b)
+        sm.pseudoboolencoding(ineq, bool(post[5]))
     elif k == "pb-shared":
         # the way rect.py works: one expression object is reused in several inequalities; the second inequality is
         # BUILT before the first one is derived and POSTED after it
@@ -169,6 +182,10 @@ def run_script(c):
             accepted.append(p)
             if p[0] == "pb-shared":
                 cls.append("shared-subexpression")
+            if p[0] == "pb-scaled":
+                cls.append("scaled-expression")
+                if p[2] < 0 and any((t[0] < 0) != (not t[2]) for t in p[1]):
+                    cls.append("negative-multiple-of-a-negated-term")
             if p[0] == "pb" and len(p) > 5 and p[5]:
                 cls.append("same-inequality-object-used-again")
             if p[0] == "pb":
@@ -294,10 +311,19 @@ def script_s(draw):
         return ["pb-shared", base, extra, draw(st.sampled_from(ops)), draw(_i(0, tb + te)), draw(st.sampled_from(ops)), draw(_i(0, tb)),
                 draw(st.booleans()), draw(st.booleans()), draw(st.booleans())]
 
+    def scaled():
+        base = [[draw(_i(-3, 4)), draw(_i(0, nvars - 1)), draw(st.booleans())] for _ in range(draw(_i(1, 4)))]
+        k = draw(st.sampled_from([-1, -2, -3, 2, 3, 0, 1]))
+        lo = sum(min(0, k * t[0]) for t in base)
+        hi = sum(max(0, k * t[0]) for t in base)
+        return ["pb-scaled", base, k, draw(st.sampled_from([">=", "<=", ">", "<", "="])), draw(_i(lo - 1, hi + 1)), draw(st.booleans()), draw(st.booleans())]
+
     def post():
-        k = draw(_i(0, 10))
+        k = draw(_i(0, 11))
         if k == 10:
             return shared()
+        if k == 11:
+            return scaled()
         if k == 0:
             return ["clause", [lit() for _ in range(draw(_i(0, 4)))]]
         if k == 1:
@@ -332,5 +358,5 @@ def script_s(draw):
 def subchecks():
     return [
         Sub("scripts", run_script, strategy=script_s(), n_quick=12000, n_thorough=300000, fuzz_thorough=6000,
-            required=("pb-robdd", "pb-robdd-decomp", "pb-clause-shortcut", "heule-depth2", "refused", "history", "sat", "unsat", "shared-subexpression", "same-inequality-object-used-again")),
+            required=("pb-robdd", "pb-robdd-decomp", "pb-clause-shortcut", "heule-depth2", "refused", "history", "sat", "unsat", "shared-subexpression", "same-inequality-object-used-again", "scaled-expression", "negative-multiple-of-a-negated-term")),
     ]
